@@ -69,7 +69,11 @@ pub fn run(ctx: &Ctx) -> Report {
             (Tier::Thorough, _) => (1..=6).collect(),
         };
         let states: Vec<Vec<ROp>> = if kind.buffered() {
-            let fs: Vec<usize> = if ctx.tier == Tier::Thorough { (0..2 * w).collect() } else { vec![0, 1, w / 2, w - 1, w, w + 1, 2 * w - 1] };
+            let fs: Vec<usize> = match ctx.tier {
+                Tier::Thorough => (0..2 * w).collect(),
+                Tier::Quick => vec![0, 1, w / 2, w - 1, w, w + 1, 2 * w - 1],
+                Tier::Tiny => vec![1, 2 * w - 1],
+            };
             fs.into_iter().map(|f| fill_prefix(f, w)).collect()
         } else {
             vec![vec![], vec![ROp::Skip(1)], vec![ROp::Read(37)], vec![ROp::Skip(64)]]
@@ -93,6 +97,9 @@ pub fn run(ctx: &Ctx) -> Report {
         for c in &cops {
             after.push(ROp::Code(*c));
         }
+        if ctx.tier == Tier::Tiny {
+            after = vec![ROp::Read(w.min(64)), ROp::Peek(kind.peek_limit()), ROp::Unary, ROp::IoRead(3), ROp::Code(CodeOp::Std(Code::Gamma))];
+        }
         for &nw in &word_counts {
             let img = random_image(&mut rng, if nw % 2 == 1 { Pattern::Random } else { Pattern::ZeroRuns }, nw * wb, e);
             let len = nw * w;
@@ -102,6 +109,9 @@ pub fn run(ctx: &Ctx) -> Report {
                     // the pre-seek history must itself be in domain: keep only what fits
                     for (bi, be) in RBackend::ALL.iter().enumerate() {
                         if ctx.tier != Tier::Thorough && (bi + si + p) % 4 != 0 && bi >= 2 {
+                            continue;
+                        }
+                        if ctx.tier == Tier::Tiny && (bi + p) % 8 != 0 {
                             continue;
                         }
                         let cfg = RCfg { e, kind, be: *be };
